@@ -27,6 +27,7 @@ type Path struct {
 	inl   map[*ssa.Function]bool    // callees already stepped into on this path
 	enter map[*ssa.BasicBlock]int   // how often each loop head was entered on this path
 	known map[string]bool
+	isnil map[string]bool // value -> known to be nil (true) / known to be non-nil (false)
 	eq    map[string]constant.Value
 	neq   map[string][]constant.Value
 }
@@ -220,6 +221,22 @@ func (p *Path) Eval(v ssa.Value) (val, ok bool) {
 				other, c = a, cb
 			case aok && ca.Value != nil:
 				other, c = b, ca
+			case bok || aok:
+				// comparison with nil
+				o := a
+				if aok {
+					o = b
+				}
+				if oc, isC := o.(*ssa.Const); isC && oc.Value == nil {
+					return x.Op == token.EQL, true
+				}
+				if nonNilByConstruction(o) {
+					return x.Op == token.NEQ, true
+				}
+				if n, ok := p.isnil[p.canon(o)]; ok {
+					return n == (x.Op == token.EQL), true
+				}
+				return false, false
 			default:
 				return false, false
 			}
@@ -256,6 +273,12 @@ func (p *Path) assume(v ssa.Value, val bool) {
 			} else if ca, ok := a.(*ssa.Const); ok && ca.Value != nil {
 				other, c = b, ca
 			} else {
+				// comparison with nil
+				if cb, ok := b.(*ssa.Const); ok && cb.Value == nil {
+					p.isnil[p.canon(a)] = (x.Op == token.EQL) == val
+				} else if ca, ok := a.(*ssa.Const); ok && ca.Value == nil {
+					p.isnil[p.canon(b)] = (x.Op == token.EQL) == val
+				}
 				return
 			}
 			k := p.canon(other)
@@ -279,6 +302,7 @@ func (p *Path) clone() *Path {
 		inl:    make(map[*ssa.Function]bool, len(p.inl)),
 		enter:  make(map[*ssa.BasicBlock]int, len(p.enter)),
 		known:  make(map[string]bool, len(p.known)),
+		isnil:  make(map[string]bool, len(p.isnil)),
 		eq:     make(map[string]constant.Value, len(p.eq)),
 		neq:    make(map[string][]constant.Value, len(p.neq)),
 	}
@@ -299,6 +323,9 @@ func (p *Path) clone() *Path {
 	}
 	for k, v := range p.known {
 		q.known[k] = v
+	}
+	for k, v := range p.isnil {
+		q.isnil[k] = v
 	}
 	for k, v := range p.eq {
 		q.eq[k] = v
@@ -559,7 +586,7 @@ func EnumPathsSeed(start *ssa.BasicBlock, idx int, limit int, maxVisits int, see
 		}
 	}
 	startIsHead := isLoopHead(start)
-	p := &Path{phi: map[*ssa.Phi]ssa.Value{}, enter: map[*ssa.BasicBlock]int{}, known: map[string]bool{}, eq: map[string]constant.Value{}, neq: map[string][]constant.Value{},
+	p := &Path{phi: map[*ssa.Phi]ssa.Value{}, enter: map[*ssa.BasicBlock]int{}, known: map[string]bool{}, isnil: map[string]bool{}, eq: map[string]constant.Value{}, neq: map[string][]constant.Value{},
 		sub: map[ssa.Value]ssa.Value{}, rets: map[*ssa.Call][]ssa.Value{}, inl: map[*ssa.Function]bool{}}
 	if startIsHead {
 		p.enter[start] = 1 // counted here so that seeded assumptions about the start block's phis keep their key
@@ -731,4 +758,30 @@ func stableFieldLoad(ld *ssa.UnOp) (string, bool) {
 		}
 	}
 	return fmt.Sprintf("stable(%s@%p%s)", par.Name(), par, key), true
+}
+
+
+// nonNilByConstruction: calls that never return nil.
+func nonNilByConstruction(v ssa.Value) bool {
+	for i := 0; i < 4; i++ {
+		switch x := v.(type) {
+		case *ssa.MakeInterface:
+			v = x.X
+			continue
+		case *ssa.ChangeInterface:
+			v = x.X
+			continue
+		case *ssa.Alloc, *ssa.MakeClosure, *ssa.MakeMap, *ssa.MakeChan, *ssa.MakeSlice:
+			return true
+		case *ssa.Call:
+			if f := x.Call.StaticCallee(); f != nil && f.Pkg != nil {
+				switch f.Pkg.Pkg.Path() + "." + f.Name() {
+				case "fmt.Errorf", "errors.New":
+					return true
+				}
+			}
+		}
+		return false
+	}
+	return false
 }
